@@ -10,6 +10,8 @@ key (`ParsePKCS1PrivateKey (MarshalPKCS1PrivateKey k) = k`), the password-based 
 
 `parse` is the code AFTER the repair: the case `oidPublicKeyRSA` was missing, so every bundle that
 `Encode` produced for an RSA key was refused under its own password.
+`toPEM` is the code AFTER the repair of `convertBag`: SM2-curve keys are written with the package's own
+SEC 1 encoder.
 
 Core Lean only.
 -/
@@ -148,10 +150,14 @@ def Key.Valid (P : Params) : Key → Prop
   | .sm2 c d => d < P.order c
   | _ => True
 
-/-- `convertBag` (ToPEM): an RSA key is written as PKCS#1, an EC key with the standard library's
-    `x509.MarshalECPrivateKey` - which fails for the SM2 curve (`none` = ToPEM's error return) -/
+/-- `convertBag` (ToPEM), as repaired: an RSA key is written as PKCS#1; an EC key on a NIST curve with the
+    standard library's `x509.MarshalECPrivateKey`, an EC key on the SM2 curve (what the decoders return for an
+    SM2 bundle) with the package's own `MarshalECPrivateKey` - the standard library does not know that curve.
+    Both write SEC 1 with the scalar left-padded to the size of the curve and the named-curve OID.
+    (Before the repair the SM2 case also went to the standard library: "x509: unknown elliptic curve",
+    `ToPEM` refused every SM2 bundle under its own password.) -/
 def toPEM : PKey → Option Inner
   | .rsa k => some (.pkcs1 k)
-  | .ecdsa c d => if c = .sm2 then none else some (.sec1 1 (i2ospR c.size d) (.known c))
+  | .ecdsa c d => some (.sec1 1 (i2ospR c.size d) (.known c))
 
 end Gmsm.Model.PKCS8
